@@ -1,6 +1,6 @@
 use crate::common::now;
 use crate::net::EventLoops;
-use crate::syscall::{is_blocking, reset_errno, send_time_limit, set_blocking, set_errno, set_non_blocking};
+use crate::syscall::{caller_is_blocking, reset_errno, send_time_limit, nio_leave, set_errno, nio_enter};
 use libc::{sockaddr, socklen_t};
 use std::ffi::{c_int, c_void};
 use std::io::Error;
@@ -41,12 +41,12 @@ impl<I: ConnectSyscall> ConnectSyscall for NioConnectSyscall<I> {
         address: *const sockaddr,
         len: socklen_t,
     ) -> c_int {
-        let blocking = is_blocking(fd);
+        let blocking = caller_is_blocking(fd);
         if !blocking {
             // the caller asked for non-blocking semantics: never wait on its behalf
             return self.inner.connect(fn_ptr, fd, address, len);
         }
-        set_non_blocking(fd);
+        nio_enter(fd);
         let start_time = now();
         let mut left_time = send_time_limit(fd);
         let mut r = self.inner.connect(fn_ptr, fd, address, len);
@@ -105,7 +105,7 @@ impl<I: ConnectSyscall> ConnectSyscall for NioConnectSyscall<I> {
             set_errno(libc::EINPROGRESS);
         }
         if blocking {
-            set_blocking(fd);
+            nio_leave(fd);
         }
         r
     }
